@@ -8,6 +8,7 @@ import (
 	"os"
 	"sort"
 	"strings"
+	"time"
 
 	"verif/engine"
 	"verif/engine/vrt"
@@ -18,7 +19,21 @@ type Case struct {
 	Scenario string `json:"scenario"`
 	Choices  []int  `json:"choices"`
 	Preempt  int    `json:"preemptions"`
+	Events   []int  `json:"events,omitempty"` // explicit-state sub-checks: the encoded event sequence
 }
+
+// Extra is an additional family of blocks run by the same worker pool (e.g. an explicit-state search
+// whose transitions execute the real code under the scheduler).
+type Extra struct {
+	Name      string // scenario-name prefix of its replay cases
+	NumBlocks int
+	Run       func(w *engine.W, blk int, thorough bool, deadline time.Time)
+	Replay    func(k Case) *engine.Failure
+	Fold      func(c *engine.Check, hist map[string]int64)
+}
+
+// Extras are appended to the scenario blocks by Main.
+var Extras []*Extra
 
 type block struct {
 	sc     int
@@ -35,6 +50,11 @@ func Main(c *engine.Check, scenarios []*vrt.Scenario, boundQuick, boundThorough 
 	if c.IsReplay() {
 		var k Case
 		c.LoadReplay(&k)
+		for _, x := range Extras {
+			if strings.HasPrefix(k.Scenario, x.Name) {
+				c.ReplayResult(x.Replay(k))
+			}
+		}
 		sc := byName[k.Scenario]
 		if sc == nil {
 			c.Fatal("unknown scenario %q", k.Scenario)
@@ -72,8 +92,23 @@ func Main(c *engine.Check, scenarios []*vrt.Scenario, boundQuick, boundThorough 
 		}
 	}
 	deadline := c.DeadlineTime()
-	job := &engine.Job{NumBlocks: len(blocks)}
+	nb := len(blocks)
+	for _, x := range Extras {
+		nb += x.NumBlocks
+	}
+	job := &engine.Job{NumBlocks: nb}
 	job.RunBlock = func(w *engine.W, b int) {
+		if b >= len(blocks) {
+			b -= len(blocks)
+			for _, x := range Extras {
+				if b < x.NumBlocks {
+					x.Run(w, b, c.Thorough(), deadline)
+					return
+				}
+				b -= x.NumBlocks
+			}
+			return
+		}
 		bl := blocks[b]
 		sc := scenarios[bl.sc]
 		if !w.Item(Case{Scenario: sc.Name, Choices: bl.prefix}) {
@@ -135,6 +170,11 @@ func Main(c *engine.Check, scenarios []*vrt.Scenario, boundQuick, boundThorough 
 		}
 	}
 	c.DropHist("o:")
+	for _, x := range Extras {
+		if x.Fold != nil {
+			x.Fold(c, h)
+		}
+	}
 	var names []string
 	for n := range outcomes {
 		names = append(names, n)
